@@ -203,7 +203,8 @@ impl Parser {
                         Lexem::String(s) | Lexem::RawString(s) => match mode {
                             RootParsingMode::From | RootParsingMode::Comma => {
                                 path = s.to_string();
-                                if path.starts_with("~") {
+                                // `~` and `~/...` mean the home directory; `~name` is an ordinary name
+                                if path == "~" || path.starts_with("~/") {
                                     if let Some(ud) = UserDirs::new() {
                                         let mut pb = PathBuf::from(path.clone());
                                         pb = pb.components().skip(1).collect();
